@@ -93,10 +93,24 @@ func init() {
 					cases = append(cases, Case{ID: "show-error lines=" + sh + " token=" + tk, Pkg: "internal/parser", Fn: "ZZC14Show", Args: []string{sh, tk}, Tag: "show-error"})
 				}
 			}
+			// by-product (direct execution, not a solver verdict over texts): the real parser on a corpus
+			for _, t := range validTemplates {
+				cases = append(cases, Case{ID: "parse valid " + strings.ReplaceAll(t, "\n", "\\n"), Pkg: "internal/parser", Fn: "ZZC14ParseText", Args: []string{t, "1"}, Tag: "corpus-parse (native parser, by-product)"})
+			}
+			invalid := []string{"send", "send [USD 1] (", "vars {", "send [USD 1] ( source = @a destination = )", "} } }", "send [USD 1] ( source = @a destination = @b ) )", "set_tx_meta(", "vars { number }", "@", "$", "[USD", "send [USD *] ( source = destination = @b )", "é", "send [USD 1] ( source = @a\ndestination = @b", "\"unterminated"}
+			for _, t := range invalid {
+				cases = append(cases, Case{ID: "parse invalid " + strings.ReplaceAll(t, "\n", "\\n"), Pkg: "internal/parser", Fn: "ZZC14ParseText", Args: []string{t, "0"}, Tag: "corpus-parse (native parser, by-product)"})
+			}
+			corpus := c18Texts(tier)
+			corpus = append(corpus, "send [USD 123456789012345678] (source=@a destination=@b)", "send [USD -9223372036854775808] (source=@a destination=@b)", "send [USD 1] (source = {00000000000000000000001/3 from @a remaining from @b} destination=@c)",
+				"send [USD 1] (source=@a destination={0.00000000000000000000000001% to @b remaining kept})", "send [USD 1] (source=@a destination={99999999999999999999999% to @b remaining kept})", "set_tx_meta(\"é\", \"日本語\")\n\n", "// comment only", "/* unterminated", "send [USD 1] (\r\n source = @a\r\n destination = @b\r\n)\r\n")
+			for _, t := range corpus {
+				cases = append(cases, Case{ID: "parse " + strings.ReplaceAll(t, "\n", "\\n"), Pkg: "internal/parser", Fn: "ZZC14ParseText", Args: []string{t, ""}, Tag: "corpus-parse (native parser, by-product)"})
+			}
 			return cases
 		},
 		Bounds: stdBounds(
-			map[string]interface{}{"number_literal": "optional '-', 1..21 symbolic digits", "percent_literal": "i,f <= 4 symbolic digits", "ratio_literal": "<= 4 x 4 symbolic digits with spaces", "syntax_error": "token of <= 3 characters / 6 bytes (every UTF-8 layout, symbolic bytes) or no token, any line >= 1 and column >= 0", "show_error": "sources of <= 3 lines with line lengths 0..3, error token anywhere or <EOF>"},
+			map[string]interface{}{"corpus_parse": "BY-PRODUCT, not a solver verdict over texts: the real parser runs natively on the C18 edit corpus, 13 valid and 15 invalid scripts and numeric edge cases; a native panic, a wrongly accepted/rejected script or an error located outside the text is reported with the text as replay", "number_literal": "optional '-', 1..21 symbolic digits", "percent_literal": "i,f <= 4 symbolic digits", "ratio_literal": "<= 4 x 4 symbolic digits with spaces", "syntax_error": "token of <= 3 characters / 6 bytes (every UTF-8 layout, symbolic bytes) or no token, any line >= 1 and column >= 0", "show_error": "sources of <= 3 lines with line lengths 0..3, error token anywhere or <EOF>"},
 			map[string]interface{}{"number_literal": "1..21 digits", "percent_literal": "i+f <= 23", "syntax_error": "<= 4 characters / 8 bytes", "show_error": "<= 4 lines, every token placement"}),
 		Assumptions: []string{
 			"SCOPED CLAIM: only the conversion kernels (parseNumberLiteral, parsePercentageRatio, parseRatio), the error listener and the error renderer are decided; the ANTLR lexer/parser (termination, acceptance of valid scripts, rejection of invalid ones) is outside the encoding",
